@@ -54,7 +54,7 @@ def run(tier, seed, which="C08"):
         for k, L in ([(300, 40), (500, 12), (480, 120)] if tier == "quick" else [(258, 700), (300, 40), (400, 10), (440, 60), (480, 120), (500, 5), (500, 60), (500, 2000), (1000, 20), (1000, 200)]):
             add("%s_many_L%d_k%d" % (cname, L, k), ch * L, k, rng.choice(tys), rng.choice([1, 4, 16]))
     V.sample(dict(group=groups[0]["gid"], seq=groups[0]["members"][0]["seqs"][0][:80], copies=len(groups[0]["members"][0]["seqs"])))
-    rel.run_groups(V, groups, wd, per_batch=6, timeout=900)
+    rel.run_groups(V, groups, wd, per_batch=3, timeout=900, workers=8, heap="6g")
     return V.finish(rule="k copies of one string: k in %s, length in %s, compositions uniform / single letter (all-N, all-X, all-B, all-Z, all-U, all-W) / IUPAC mixtures / mixed case, "
                     "every admissible type, threads 1..16; relation: no '-' in any row and the run succeeds; distinct by (string, k, type)" % (ks, lens),
                     assumptions=["types are chosen admissible for the kind of sequence kalign detects; ambiguous compositions run with the undefined type only"])
